@@ -286,24 +286,18 @@ example : SameRawQuals [("k".toList, [.str "b".toList, .int 1, .str "b".toList])
       have : Nat.toDigits 10 1 = "1".toList := by decide
       rw [this]; grind⟩ (.cons ⟨rfl, fun _ => Iff.rfl⟩ .nil), List.Perm.swap _ _ _⟩
 
-example : TxWF ⟨⟨[0, 20], [10, 30], .minus, some ([5, 20], [10, 25], [.ONE, .ZERO]),
-    [("note".toList, ["a".toList, "b".toList])], some "tx1".toList, none, some "protein_coding".toList,
-    none, none, some "chr1".toList, some true⟩, none, "00".toList, none⟩ where
-  quals := by unfold QualsWF; decide
-  cds := by
-    intro s e f h
-    simp only [Option.some.injEq, Prod.mk.injEq] at h
-    obtain ⟨rfl, rfl, rfl⟩ := h
-    decide
-  biotype := by
-    intro n h
-    simp only [Option.some.injEq] at h
-    subst h
-    decide +kernel
-
 example : VarWF ⟨⟨3, 5, [("k".toList, ["v".toList])], "AC".toList, "SNV".toList, some 1, none, none⟩, none, "00".toList⟩ where
   quals := by unfold QualsWF; decide
   nonempty := by decide
+
+example : TxWF exTx := exTx_wf
+example : FeatWF exFeat := exFeat_wf
+example : CdsWF (fun _ => []) exCds := exCds_wf
+example : GeneWF exGene := exGene_wf
+example : FcWF exFc := exFc_wf
+example : VcWF exVc := exVc_wf
+/-- an exportable collection on a sequence chunk satisfies every hypothesis of `ac_dict_roundtrip` -/
+example : AcWF (fun _ => []) exAc ∧ exAc.bounds = some (10, 14) ∧ exAc.genes ≠ [] := ⟨exAc_wf, rfl, by decide⟩
 
 example : ParentWF (.chrom "ACGT".toList "NT_STRICT".toList (some "chr1".toList)) := ⟨by decide, by decide⟩
 example : ParentWF (.chunk "ACGT".toList "NT_STRICT".toList "chr1".toList 10 14 .plus) := by
